@@ -745,6 +745,25 @@ pub fn check() -> Option<Check> {
                     if each_alone && !disp.is_ascii() && !disp.contains('\u{FFFD}') {
                         vfail!("display-of-idn-label-beside-non-std3-label-unparseable", "{} is displayed as {disp:?}, which does not parse: {e}", m.show());
                     }
+                    // the same mechanism inside ONE label: valid punycode whose basic code points include
+                    // an ASCII character outside letters, digits and hyphen (xn--_0-25c -> "_0\u{523}").
+                    // Display (deny list EMPTY) prints the Unicode form, the UTF-8 parse path (STD3 deny
+                    // list; a leading underscore sends the label to from_ascii) refuses it. Every label
+                    // that does not come back on its own must be of exactly that shape.
+                    let alone = |l: &Vec<u8>| -> Option<(String, bool)> {
+                        let mut one = Name::from_labels(vec![l.as_slice()]).ok()?;
+                        one.set_fqdn(true);
+                        let d = one.to_string();
+                        let ok = d.parse::<Name>().is_ok_and(|b| b == one);
+                        Some((d, ok))
+                    };
+                    let failing: Vec<(&Vec<u8>, String)> = m.labels.iter().filter_map(|l| alone(l).and_then(|(d, ok)| (!ok).then_some((l, d)))).collect();
+                    let idn_with_non_ldh = |l: &Vec<u8>, d: &str| {
+                        l.starts_with(b"xn--") && !d.is_ascii() && !d.contains('\u{FFFD}') && d.trim_end_matches('.').chars().any(|c| c.is_ascii() && !(c.is_ascii_alphanumeric() || c == '-'))
+                    };
+                    if !failing.is_empty() && failing.iter().all(|(l, d)| idn_with_non_ldh(l, d)) {
+                        vfail!("display-of-idn-label-with-non-ldh-ascii-unparseable", "{} is displayed as {disp:?}, which does not parse: {e}", m.show());
+                    }
                     vfail!("display-output-unparseable", "{} is displayed as {disp:?}, which does not parse: {e}", m.show())
                 }
             }
